@@ -26,8 +26,12 @@ Check(ev, what) ==
     [] what = "reserialize"  -> ev.re_same
     [] what = "record-form"  -> \A k \in 1..Len(ev.value.specs) : FormLaw(ev.value.specs[k])
     [] what = "image"        -> Len(ev.bytes) > 0 => ev.bytes = Image(AssetContent(ev.value))
+\* events of rule-built large values carry [rule, len, head, reparsed_equal, re_same] instead of the value
 Failed(ev) ==
   IF ev.status # "ok" THEN <<"status">>
+  ELSE IF "rule" \in DOMAIN ev
+  THEN SelectSeq(<<"header-totals", "reparsed", "reserialize">>,
+                 LAMBDA w : ~(CASE w = "header-totals" -> BigHeaderOK(ev) [] w = "reparsed" -> ev.reparsed_equal [] OTHER -> ev.re_same))
   ELSE SelectSeq(<<"value-domain", "content", "ref-reader", "reparsed", "reserialize", "record-form", "image">>, LAMBDA w : ~Check(ev, w))
 
 Init == i = 1 /\ bad = <<>>
